@@ -24,7 +24,7 @@ def mk_static(kind="generic"):
 class StaticSample(Unit):
     name = "StaticDist.sample / reset"
     target = BASE + "::StaticDist.sample"
-    props = ("C15",)
+    props = ("C15", "C12")
 
     def run(self, ctx):
         ex = ctx.ex
@@ -42,6 +42,11 @@ class StaticSample(Unit):
         R2 = ex.call(ex.getattr(new, "reset"), [rng], {})
         n2, s2 = ex.call(ex.getattr(R2, "sample"), [], {})
         ctx.ensure("C15 replay: reset to the original rng, then sample, gives the original delay and rng state", z3.And(toz(s2) == toz(s), toz(n2.f["rng"]) == toz(new.f["rng"])))
+        # a batched draw (what the graph generator uses for all communication delays of a connection at once) is clipped exactly like a scalar one
+        nb, sb = ex.call(ex.getattr(D, "sample"), [], dict(shape=(z3.Int("n_batch"),)))
+        nb2, sb2 = ex.call(ex.getattr(D, "sample"), [z3.Int("n_batch")], {})
+        ctx.ensure("C15 batched draws (shape given as a tuple or an int) are non-negative as well: the raw samples are clipped at 0 whatever the shape; same rng bookkeeping",
+                   z3.And(toz(sb) >= 0, toz(sb) == z3.If(DSAMPLE(did, keys[1]) < 0, 0, DSAMPLE(did, keys[1])), toz(sb2) >= 0, toz(nb.f["rng"]) == keys[0], toz(nb2.f["rng"]) == keys[0]))
         # StaticDist.create / mean / pdf: thin wrappers of the distrax object
         cref = ex.module_global(ctx.repo.module(BASE), "StaticDist")
         C1, C2 = ex.call(ex.getattr(cref, "create"), [dist], {}), ex.call(ex.getattr(cref, "create"), [dist], {})
